@@ -164,12 +164,12 @@ impl VouchedTime {
         let local_time_ms = local_time_ms as u64;
         // if local_time - base_time in [-MAX_BACKWARD_DISCREPANCY_MS, MAX_FORWARD_DISCREPANCY_MS]
         //
-        // We subtract base_time_ns, and add MAX_BACKWARD_DISCREPANCY_MS.  This maps the
-        // allowed range to `[0, MAX_BACKWARD_DISCREPANCY_MS + MAX_FORWARD_DISCREPANCY_MS]`.
-        if local_time_ms
-            .wrapping_sub(base_time_ms)
-            .wrapping_add(MAX_BACKWARD_DISCREPANCY_MS)
-            <= MAX_BACKWARD_DISCREPANCY_MS + MAX_FORWARD_DISCREPANCY_MS
+        // The difference of two u64 always fits in an i128; wrapping u64
+        // arithmetic would accept a base time near `u64::MAX` for a local
+        // time just after the epoch.
+        let delta = (local_time_ms as i128) - (base_time_ms as i128);
+        if (-(MAX_BACKWARD_DISCREPANCY_MS as i128)..=(MAX_FORWARD_DISCREPANCY_MS as i128))
+            .contains(&delta)
         {
             return Ok(());
         }
